@@ -42,9 +42,14 @@ fn special(pc: u8, v: f64, w: f64, is32: bool) -> (f64, f64) {
             f64::from_bits(if x >= 0.0 { x.to_bits() + 1 } else { x.to_bits() - 1 })
         }
     };
-    match pc % 14 {
+    match pc % 17 {
         12 => (r(v), -0.0),
         13 => (r(v), 0.0),
+        // close but unequal real parts: which of the absolute / relative / ulps tolerances accepts
+        // them depends on the magnitude
+        14 => (r(v), r(v * (1.0 + 4.0e-4))),
+        15 => (r(v), r(v + 5.0e-10)),
+        16 => (r(v * 1.0e-9), 0.0),
         0 => (r(v), r(v)),
         1 => (r(v), up(r(v))),
         2 => (up(r(v)), r(v)),
@@ -57,6 +62,19 @@ fn special(pc: u8, v: f64, w: f64, is32: bool) -> (f64, f64) {
         9 => (1.0, r(v)),
         10 => (0.0, r(v)),
         _ => (r(v), r(w)),
+    }
+}
+
+/// one case in three of the predicate / comparison kinds: some derivative parts are inf / NaN
+/// (decisions must still follow the real part)
+fn poison(f: &mut Flat, pc: u8) {
+    if (pc as usize / 17) % 3 == 2 {
+        let nonfinite = [f64::INFINITY, f64::NAN, f64::NEG_INFINITY];
+        for i in 1..f.vals.len() {
+            if (i + pc as usize) % 2 == 0 {
+                f.vals[i] = nonfinite[(i + pc as usize / 3) % 3];
+            }
+        }
     }
 }
 
@@ -207,7 +225,9 @@ impl<'a> TyVisitor for VPred<'a> {
         let (ra, rb) = special(case.pc, case.pv, case.pw, is32);
         let pc = &case.prog;
         let fa = make_flat::<T::F>(&lay, ra, &pc.parts[0], &pc.pres[0], &pc.zero);
-        let fb = make_flat::<T::F>(&lay, rb, &case.parts_b[0], &case.pres_b[0], &[false]);
+        let mut fb = make_flat::<T::F>(&lay, rb, &case.parts_b[0], &case.pres_b[0], &[false]);
+        // (only the second operand: abs / abs_sub below compare the parts of the first numerically)
+        poison(&mut fb, case.pc);
         // keep the sign of zero / NaN / inf (round_to keeps them)
         let a = T::from_flat(dims, &fa);
         let b = T::from_flat(dims, &fb);
@@ -253,13 +273,13 @@ impl<'a> TyVisitor for VPred<'a> {
                 let d = a.abs_sub(&b).to_flat(dims);
                 let want = if xa > xb { (a.clone() - b.clone()).to_flat(dims) } else { T::zero().to_flat(dims) };
                 for i in 0..d.vals.len() {
-                    if d.vals[i] != want.vals[i] {
+                    if d.vals[i] != want.vals[i] && !(d.vals[i].is_nan() && want.vals[i].is_nan()) {
                         return fail("abs_sub", format!("{:e} in {}", d.vals[i], lay.slots[i].name), format!("{:e}", want.vals[i]));
                     }
                 }
             }
         }
-        self.st.class(&format!("pair-class:{}", case.pc % 14));
+        self.st.class(&format!("pair-class:{}", case.pc % 17));
         let nontrivial = (1..fa.vals.len()).any(|i| fa.vals[i] != fb.vals[i]);
         Verdict::Pass { nontrivial }
     }
@@ -282,8 +302,10 @@ impl<'a> TyVisitorField for VField<'a> {
         let is32 = <T::F as Flt>::IS32;
         let (ra, rb) = special(case.pc, case.pv, case.pw, is32);
         let pc = &case.prog;
-        let fa = make_flat::<T::F>(&lay, ra, &pc.parts[0], &pc.pres[0], &pc.zero);
-        let fb = make_flat::<T::F>(&lay, rb, &case.parts_b[0], &case.pres_b[0], &[false]);
+        let mut fa = make_flat::<T::F>(&lay, ra, &pc.parts[0], &pc.pres[0], &pc.zero);
+        let mut fb = make_flat::<T::F>(&lay, rb, &case.parts_b[0], &case.pres_b[0], &[false]);
+        poison(&mut fa, case.pc);
+        poison(&mut fb, case.pc.wrapping_add(1));
         let fc = make_flat::<T::F>(&lay, round_to::<T::F>(case.pw), &pc.parts[pc.parts.len() - 1], &pc.pres[0], &[false]);
         let a = T::from_flat(dims, &fa);
         let b = T::from_flat(dims, &fb);
@@ -308,7 +330,19 @@ impl<'a> TyVisitorField for VField<'a> {
         same!(">", a > b, xa > xb);
         same!(">=", a >= b, xa >= xb);
         same!("partial_cmp", a.partial_cmp(&b), xa.partial_cmp(&xb));
-        // the approx traits decide by the real part as well (default tolerances of the float)
+        // the approx traits decide by the real part as well: default tolerances of the float and
+        // generated ones (absolute and relative tolerance different from each other)
+        if ra.is_finite() && rb.is_finite() {
+            let de = <T::F as approx::AbsDiffEq>::default_epsilon();
+            let tol = |x: f64| <T::F as Flt>::from64(x);
+            let combos: [(T::F, T::F, u32); 5] = [(tol(1e-3), tol(1e-9), 4), (tol(1e-9), tol(1e-3), 64), (tol(1e-7), de, 1), (de, tol(1e-2), 1000), (tol(0.5), tol(1e-6), 4)];
+            for (eps, rel, ulps) in combos {
+                let (e_t, r_t) = (T::from(eps), T::from(rel));
+                same!("abs_diff_eq (generated tolerance)", approx::AbsDiffEq::abs_diff_eq(&a, &b, e_t.clone()), approx::AbsDiffEq::abs_diff_eq(&xa, &xb, eps));
+                same!("relative_eq (generated tolerances)", approx::RelativeEq::relative_eq(&a, &b, e_t.clone(), r_t.clone()), approx::RelativeEq::relative_eq(&xa, &xb, eps, rel));
+                same!("ulps_eq (generated tolerances)", approx::UlpsEq::ulps_eq(&a, &b, e_t.clone(), ulps), approx::UlpsEq::ulps_eq(&xa, &xb, eps, ulps));
+            }
+        }
         if ra.is_finite() && rb.is_finite() {
             same!("abs_diff_eq", approx::AbsDiffEq::abs_diff_eq(&a, &b, <T as approx::AbsDiffEq>::default_epsilon()), approx::AbsDiffEq::abs_diff_eq(&xa, &xb, <T::F as approx::AbsDiffEq>::default_epsilon()));
             same!("relative_eq", approx::RelativeEq::relative_eq(&a, &b, <T as approx::AbsDiffEq>::default_epsilon(), <T as approx::RelativeEq>::default_max_relative()), approx::RelativeEq::relative_eq(&xa, &xb, <T::F as approx::AbsDiffEq>::default_epsilon(), <T::F as approx::RelativeEq>::default_max_relative()));
@@ -333,8 +367,8 @@ impl<'a> TyVisitorField for VField<'a> {
             let cs = nalgebra::RealField::copysign(a.clone(), b.clone()).re().to64();
             same!("copysign", cs.to_bits(), nalgebra::RealField::copysign(xa, xb).to64().to_bits());
         }
-        self.st.class(&format!("pair-class:{}", case.pc % 14));
-        let nontrivial = (1..fa.vals.len()).any(|i| fa.vals[i] != fb.vals[i]) && matches!(case.pc % 14, 0..=4);
+        self.st.class(&format!("pair-class:{}", case.pc % 17));
+        let nontrivial = (1..fa.vals.len()).any(|i| fa.vals[i] != fb.vals[i]) && matches!(case.pc % 17, 0..=4);
         if nontrivial && self.st.wants_sample() {
             self.st.sample(|| json!({"kind": "comparison", "type": T::tname(dims), "a": flat_json(&lay, &fa), "b": flat_json(&lay, &fb)}));
         }
@@ -468,7 +502,7 @@ impl Property for C06 {
         }
     }
     fn rule() -> String {
-        "four generated checks. (0) single operations: every unary function on the stratified real parts of C01 (negative, tiny, large, f32 ranges) with two independent part assignments: real part bit-identical and within 4 ulp (tan, tanh 8 ulp) of the plain float function; (1) metamorphic: a generated program (as C03) is evaluated twice on every type with the same real inputs and two independent assignments of all derivative parts (one third: all parts absent/zero): re() of EVERY node must be bit-identical; (2) differential: the same program on plain f32/f64 through the generic interface, every node's real part within 32 u e (single operations 8 u e) of the float result; the plain-float instances themselves against the std methods bit for bit (mul_add fused, powd = powf, ...); (3) pairs (a, b) with real parts from {equal, adjacent floats, +-0 (also against a non-zero value), +-inf, NaN, 0, 1, random} and arbitrary parts: == != < <= > >= partial_cmp on the field-compatible types and min/max/clamp/copysign decide like the floats (copysign by the sign bit, so -0.0 counts as negative); on every type is_zero, is_one, is_positive, is_negative, abs, signum (away from exact zeros), abs_sub decide by the real part. Non-trivial: the two assignments differ in >= 2 parts / the compared pair has equal or adjacent real parts but different parts.".into()
+        "four generated checks. (0) single operations: every unary function on the stratified real parts of C01 (negative, tiny, large, f32 ranges) with two independent part assignments: real part bit-identical and within 4 ulp (tan, tanh 8 ulp) of the plain float function; (1) metamorphic: a generated program (as C03) is evaluated twice on every type with the same real inputs and two independent assignments of all derivative parts (one third: all parts absent/zero): re() of EVERY node must be bit-identical; (2) differential: the same program on plain f32/f64 through the generic interface, every node's real part within 32 u e (single operations 8 u e) of the float result; the plain-float instances themselves against the std methods bit for bit (mul_add fused, powd = powf, ...); (3) pairs (a, b) with real parts from {equal, adjacent floats, close (relative 4e-4, absolute 5e-10, 1e-9 against 0), +-0 (also against a non-zero value), +-inf, NaN, 0, 1, random} and arbitrary parts: == != < <= > >= partial_cmp and the approx traits (abs_diff_eq, relative_eq, ulps_eq with default and with five generated tolerance combinations) on the field-compatible types and min/max/clamp/copysign decide like the floats (copysign by the sign bit, so -0.0 counts as negative); on every type is_zero, is_one, is_positive, is_negative, abs, signum (away from exact zeros), abs_sub decide by the real part. Non-trivial: the two assignments differ in >= 2 parts / the compared pair has equal or adjacent real parts but different parts.".into()
     }
     fn assumptions() -> Vec<String> {
         vec!["signum at exact zeros is outside the property (discontinuity)".into()]
